@@ -73,6 +73,17 @@ package core
 //      union is Children, and each equals the shadow set. After every operation (seq), at the
 //      quiescent points between phases (conc).
 //
+// UNITS  basic: hand-written in-domain histories (each step names its pod) - among them the minimal
+// reproduction of the known Gang.setChild defect; seq: generated sequential histories, every
+// oracle after every operation; conc: the informer's half and the scheduler's half of a
+// pre-generated history on two goroutines under the race detector.
+//
+// KNOWN DEFECT  A stale update (node name still empty) delivered after PostBind puts the pod into
+// PendingChildren while it is in BoundChildren (Gang.setChild). It is reported under the narrow
+// signature C04/partition/bound-and-pending-after-stale-update WITHOUT ending the case: for exactly
+// those pods the double membership is then tolerated, so that the rest of the history is still
+// checked and a different violation is not masked. Every other violation ends the case.
+//
 // In the concurrent unit informer events overlap scheduler calls. Every shadow fact that can only
 // lower a count (delete, told-bound under only-waiting) is applied for (1) as of the START of the
 // call and only when its delivery had completed; every fact that can only raise it (existence,
@@ -311,11 +322,11 @@ type c04Pod struct {
 	queue      []c04Ver // versions the informer has not delivered yet
 	delivered  int
 	// what the cache was told (begun = the delivery started, done = it returned)
-	obj                  *corev1.Pod
-	addBegun, addDone    bool
-	delBegun, delDone    bool
+	obj                   *corev1.Pod
+	addBegun, addDone     bool
+	delBegun, delDone     bool
 	boundBegun, boundDone bool
-	staleAfterBound      bool // a version with an empty node name was delivered after the cache was told "bound"
+	staleAfterBound       bool // a version with an empty node name was delivered after the cache was told "bound"
 	// scheduler
 	held bool
 	fw   int // 0 idle, 1 in the waiting map, 2 binding
@@ -1531,7 +1542,7 @@ func (u *c04U) finish() {
 // unit seq
 
 func TestVerifC04Seq(t *testing.T) {
-	kit.Run(t, kit.Config{Property: "C04", Unit: "seq", Quick: 3500, Thorough: 200000,
+	kit.Run(t, kit.Config{Property: "C04", Unit: "seq", Quick: 3500, Thorough: 150000,
 		Rule: "sequential histories of 60-150 operations over 1-2 gang groups of 1-3 gangs (min 1-3, 2-5 pod slots, strict / non-strict, three match policies, annotation and PodGroup sources): API create/touch/delete of pods with lagging in-order informer delivery (stale updates after PostBind on purpose), PodGroup add/update/delete, scheduling cycles (gate, Permit + AllowGangGroup, AfterPostFilter), wake-ups of signalled waiting pods, permit timeouts, bind success (PostBind) / failure (Unreserve); oracles (1)(3) at every scheduler call, (4) after every operation; distinct = (policy, mode, per-gang min / waiting / bound counts) at each Permit decision; non-trivial = case with a release, a wait and a group rejection"},
 		func(c *kit.Case) {
 			u := c04NewUniverse(c, false)
@@ -1612,7 +1623,7 @@ func c04PanicInHarness(stack string) (string, bool) {
 }
 
 func TestVerifC04Conc(t *testing.T) {
-	kit.Run(t, kit.Config{Property: "C04", Unit: "conc", Quick: 1000, Thorough: 60000,
+	kit.Run(t, kit.Config{Property: "C04", Unit: "conc", Quick: 1000, Thorough: 45000,
 		Rule: "the same universes; a pre-generated history of 80-160 intents is split into the informer's half (pod create/touch/deliver/delete, PodGroup add / no-change update) and the scheduler's half (cycles, wake-ups, timeouts, bind results) which run on two goroutines in 3 phases under the race detector with random yields between operations; oracles (1)(3) online at the scheduler goroutine against window bounds of the shadow truth, (4) at the quiescent point after each phase; distinct = Permit decision states plus the observed interleaving of each phase; non-trivial = case with a release, a wait and a group rejection"},
 		func(c *kit.Case) {
 			u := c04NewUniverse(c, true)
